@@ -944,6 +944,36 @@ def _equal(E, a, b):
     return c
 
 
+def _allclose(E, a, b, rtol=1e-05, atol=1e-08, equal_nan=False):
+    """torch.allclose(a, b): all |a - b| <= atol + rtol * |b| (same shapes or broadcastable 0-dim); R algebra only."""
+    if E.alg.floatmode != "R":
+        raise Unsupported("torch.allclose outside the real algebra")
+    if len(a.shape) != len(b.shape) and len(b.shape) != 0:
+        raise Unsupported("torch.allclose with broadcasting")
+    rank = len(a.shape)
+    n = E.fresh_name("allclose")
+    ab = lambda t: z3.If(t >= 0, t, -t)
+    close = lambda x, y: ab(x - y) <= z3.RealVal(str(atol)) + z3.RealVal(str(rtol)) * ab(y)
+    if rank == 0:
+        return close(a.elem([]), b.elem([]))
+    ids = [z3.Int(f"{n}_i{k}") for k in range(rank)]
+    inb = z3.And(*[z3.And(i >= 0, i < sym.to_z3_int(d)) for i, d in zip(ids, a.shape)])
+    ee = z3.ForAll(ids, z3.Implies(inb, close(a.elem(ids), b.elem(ids) if len(b.shape) else b.elem([]))))
+    c = z3.Bool(n)
+    E.assume(c == ee)
+    return c
+
+
+def _like(val):
+    def f(E, t, dtype=None, device=None, **kw):
+        d = dtype.name if dtype is not None else t.dtype
+        dev = device if device is not None else t.device
+        if isinstance(dev, str):
+            dev = Device(dev)
+        return full(E, list(t.shape), val, d, dev)
+    return f
+
+
 def _isfinite_like(which):
     def f(E, t):
         alg = E.alg
@@ -1048,6 +1078,7 @@ def _tensor(E, data, dtype=None, device=None, **kw):
 TORCH_FUNCS = {
     "zeros": _zeros_like(0), "ones": _zeros_like(1), "arange": _arange, "tensor": _tensor,
     "is_tensor": lambda E, x: isinstance(x, STensor) or is_wrapper(x),
+    "allclose": _allclose, "ones_like": _like(1), "zeros_like": _like(0),
 }
 for _n in ["reciprocal", "abs", "neg", "round", "clamp", "relu", "amax", "amin", "max", "min", "all", "equal", "where", "mul", "div",
            "add", "sub", "lt", "cat", "stack", "matmul", "mm", "bmm", "squeeze", "unsqueeze", "reshape", "permute",
